@@ -163,7 +163,7 @@ func shrinkInput(in *Input, fails func(*Input) bool, budget time.Duration) (*Inp
 		// knobs
 		for _, f := range []func(c *Input) bool{
 			func(c *Input) bool { ch := len(c.Cfg.SitesOff) > 0; c.Cfg.SitesOff = nil; return ch },
-			func(c *Input) bool { ch := c.Cfg.CacheSize != 1024; c.Cfg.CacheSize = 1024; return ch },
+			func(c *Input) bool { ch := c.Cfg.CacheSize != largeCache; c.Cfg.CacheSize = largeCache; return ch },
 			func(c *Input) bool { ch := c.Cfg.BatchSize != 4096; c.Cfg.BatchSize = 4096; return ch },
 			func(c *Input) bool {
 				if c.Cfg.Ledgers <= 1 {
